@@ -38,7 +38,7 @@ fn level_of(id: &str) -> &'static str {
 
 fn run(id: &str, tier: Tier, seed: u64, only_root: Option<String>, out: &Out) -> i32 {
     // fixture gate first: the reference is not believed unless it reproduces every fixture
-    match refbbs::fixtures::gate(std::path::Path::new("/repo")) {
+    match refbbs::fixtures::gate(std::path::Path::new(&mccore::repo_root())) {
         Ok(g) => out.line(&format!("fixture gate: reference reproduces {} files / {} checks", g.files, g.checks)),
         Err(e) => {
             out.line(&format!("MACHINERY-ERROR: fixture gate failed: {}", e));
@@ -92,7 +92,7 @@ fn main() {
         return;
     }
     let code = match args.get(1).map(|s| s.as_str()) {
-        Some("gate") => match refbbs::fixtures::gate(std::path::Path::new("/repo")) {
+        Some("gate") => match refbbs::fixtures::gate(std::path::Path::new(&mccore::repo_root())) {
             Ok(g) => {
                 out.line(&format!("gate ok files={} checks={}", g.files, g.checks));
                 0
